@@ -45,6 +45,7 @@ type Profile struct {
 	PCheckpointRestart                                                           float64
 	PSplitSnapshot                                                               float64
 	PZeroMsgSize                                                                 float64 // MaxSizePerMsg=0 together with MaxCommittedSizePerReady=0
+	PUniform                                                                     float64 // group-wide PreVote/CheckQuorum/ElectionTick
 	ShortElection                                                                bool
 	AggressiveCompaction                                                         bool
 	HeavyProposals                                                               bool
@@ -63,7 +64,7 @@ func DefaultProfile() Profile {
 		WCrash:     3, WPartition: 2, WHealF: 2, WClockStall: 0.7, WClockJump: 0.7, WSlowNode: 0.7, WStallThread: 0.7,
 		FaultRate: 0.05,
 		PDrop:     0.03, PDup: 0.03, PLate: 0.02,
-		PTargetedCrash: 0.03, PCheckpointRestart: 0.3,
+		PTargetedCrash: 0.03, PCheckpointRestart: 0.3, PUniform: 0.75, PZeroMsgSize: 0.01,
 	}
 }
 
@@ -198,10 +199,10 @@ func DrawConfig(rng *rand.Rand, p Profile, runSeed uint64) RunConfig {
 	}
 	anyAsync := chance(rng, p.PAsync)
 	// PreVote / CheckQuorum are group-wide in most runs, mixed per node in some.
-	uniform := chance(rng, 0.75)
+	uniform := chance(rng, p.PUniform)
 	uPreVote, uCheckQuorum := chance(rng, p.PPreVote), chance(rng, p.PCheckQuorum)
 	// ElectionTick / HeartbeatTick are a property of the group in most runs.
-	uniformTicks := chance(rng, 0.8)
+	uniformTicks := uniform || chance(rng, 0.3)
 	uET := 3 + rng.IntN(10)
 	if p.ShortElection {
 		uET = 3 + rng.IntN(4)
